@@ -384,3 +384,81 @@ pub fn quantizer_reject_i16_u8_p8() {
     assert!(m.left_cumulative_and_probability(s).is_some() == (s >= lo && s <= hi), "C09: quantised model accepts exactly the symbols of its support (no aliasing after narrowing)");
     cover!(s > hi && ((s as i32 - lo as i32) & 0xff) <= (hi as i32 - lo as i32), "out-of-support symbol that aliases an in-support one modulo 2^8");
 }
+
+/// step-shaped CDF: 0 left of the threshold, 1 from it on (a valid monotone CDF; one of the
+/// families C03 names).  Makes the quantiser an integer program: every float product is 0 or free_weight.
+pub struct StepCdf { pub t: f64, pub hint: f64 }
+impl Distribution for StepCdf { type Value = f64; fn distribution(&self, x: f64) -> f64 { if x < self.t { 0.0 } else { 1.0 } } }
+impl Inverse for StepCdf { fn inverse(&self, _p: f64) -> f64 { self.hint } }
+
+macro_rules! quantizer_search_harness {
+    ($name:ident, $Sym:ty, $unw:expr) => {
+        /// C03/C10/C20: quantile_function of a quantised model (the exponential + binary search over the
+        /// support) for EVERY support of the symbol type, every step-shaped CDF, EVERY inverse hint
+        /// (right or wrong) and every quantile: terminates, returns a symbol of the support whose
+        /// interval holds the quantile, and agrees with the encoder view.  Covers supports that touch
+        /// the minimum / maximum of the symbol type (wrap-around of the search step).
+        #[cfg_attr(kani, kani::proof)]
+        #[cfg_attr(kani, kani::unwind($unw))]
+        pub fn $name() {
+            let lo: $Sym = any(); let hi: $Sym = any();
+            assume(lo < hi && (hi as i32 - lo as i32) <= 255);
+            let t: i16 = any(); let hint: i16 = any();
+            let m = LeakyQuantizer::<f64, $Sym, u8, 8>::new(lo..=hi).quantize(StepCdf { t: t as f64, hint: hint as f64 });
+            let q: u8 = any();
+            let (s, c, p) = m.quantile_function(q);
+            assert!(s >= lo && s <= hi, "C10/C03: quantised model decoded a symbol outside its support");
+            assert!(c <= q && (q as u32) < c as u32 + p.get() as u32, "C03: quantile not inside the interval returned by the quantised model");
+            assert!(m.left_cumulative_and_probability(s) == Some((c, p)), "C03: quantised quantile_function disagrees with the encoder view");
+            cover!(hi == <$Sym>::MAX, "support touches the maximum of the symbol type");
+            cover!(lo == <$Sym>::MIN, "support touches the minimum of the symbol type");
+        }
+    };
+}
+quantizer_search_harness!(quantizer_search_u8, u8, 40);
+quantizer_search_harness!(quantizer_search_i8, i8, 40);
+
+/// C05 (bounded: 2-entry tables at full precision and below): generic conversions of a model
+/// (to_generic_decoder_model, to_generic_lookup_decoder_model, to_generic_encoder_model) assign
+/// every quantile / symbol the same triple as the original.
+macro_rules! generic_conversion_harness {
+    ($name:ident, $P:expr) => {
+        #[cfg_attr(kani, kani::proof)]
+        #[cfg_attr(kani, kani::unwind(8))]
+        pub fn $name() {
+            const P: usize = $P;
+            let a: u8 = any(); assume(a >= 1 && (a as u32) < (1u32 << P));
+            let m = match ContiguousCategoricalEntropyModel::<u8, Vec<u8>, P>::from_nonzero_fixed_point_probabilities(&[a], true) { Ok(m) => m, Err(()) => return };
+            let d = m.to_generic_decoder_model();
+            let q: u8 = any(); assume((q as u32) < (1u32 << P));
+            assert!(d.quantile_function(q) == m.quantile_function(q), "C05: to_generic_decoder_model differs from the original model");
+            let e = m.to_generic_encoder_model();
+            let s: usize = any();
+            assert!(e.left_cumulative_and_probability(s) == m.left_cumulative_and_probability(s), "C05: to_generic_encoder_model differs from the original model");
+        }
+    };
+}
+generic_conversion_harness!(generic_conversions_p8, 8);
+generic_conversion_harness!(generic_conversions_p5, 5);
+
+/// C05/C03 (bounded: 3 entries drawn from {0, 0.5, 1, 3}): lazy model == eager model for every
+/// symbol and quantile, including tables with leading / trailing zero entries.
+#[cfg_attr(kani, kani::proof)]
+#[cfg_attr(kani, kani::unwind(6))]
+pub fn lazy_vs_eager_small_p8() {
+    const P: usize = 8;
+    const V: [f32; 4] = [0.0, 0.5, 1.0, 3.0];
+    let i: [u8; 3] = [any(), any(), any()];
+    assume(i[0] < 4 && i[1] < 4 && i[2] < 4);
+    let p: [f32; 3] = [V[i[0] as usize], V[i[1] as usize], V[i[2] as usize]];
+    let e = ContiguousCategoricalEntropyModel::<u8, Vec<u8>, P>::from_floating_point_probabilities_fast(&p, None);
+    let l = LazyContiguousCategoricalEntropyModel::<u8, f32, &[f32], P>::from_floating_point_probabilities_fast(&p[..], None);
+    assert!(e.is_ok() == l.is_ok(), "C05/C19: lazy and eager constructors disagree on accepting the table");
+    if let (Ok(e), Ok(l)) = (e, l) {
+        let s: usize = any();
+        assert!(l.left_cumulative_and_probability(s) == e.left_cumulative_and_probability(s), "C05: lazy model differs from eager model (encoder view)");
+        let q: u8 = any();
+        assert!(l.quantile_function(q) == e.quantile_function(q), "C05: lazy model differs from eager model (decoder view)");
+        cover!(p[0] == 0.0, "leading zero entry");
+    }
+}
